@@ -287,6 +287,9 @@ def parts(tier):
                shards=16, timeout=170, path_timeout=30, mode="CH-P+CH-E"),
             CH("cli_several_files", "vflib.props.c01:scen_cli_files", {"kinds": "KINDS_SMALL", "third_kinds": ["absent", "s_abc", "o_k"]},
                shards=16, timeout=170, path_timeout=30, mode="CH-E"),
+            CH("odd_key_and_string_values", "vflib.props.c01:scen_accept",
+               {"kinds": "KINDS_ODDSTR", "samples": 2, "keys": ["tab\tastral\U0001F600"], "frameworks": ["pydantic", "sqlmodel"], "layouts": ["flat"],
+                "symbolic_leaves": False}, shards=16, timeout=170, path_timeout=30, mode="CH-E"),
             CH("key_reuse_shapes", "vflib.props.c01:scen_accept",
                {"kinds": "KINDS_SHAPES", "samples": 2, "keys": ["a"], "frameworks": ["pydantic", "dataclasses"], "layouts": ["flat"],
                 "symbolic_leaves": False}, shards=16, timeout=170, path_timeout=30, mode="CH-E"),
